@@ -6,8 +6,11 @@
    contexts.py::to_portable/from_portable  at the level of the JSON value that is produced / consumed.
    Numbers are abstract (N): Python's json module writes floats with repr and reads them back exactly;
    that and the character-level syntax of JSON are outside this model.  Attribute strings are opaque
-   (the split/join of attributes is not in the property's list). *)
+   (the split/join of attributes is not in the property's list).
+   The kind codes, the order of kinds, the format tag and all dictionary keys come from gen/PortableGen.v,
+   regenerated from the source on every run by translator/portable.py. *)
 From Coq Require Import String List Bool.
+From Verif Require Import gen.PortableGen.
 Import ListNotations.
 Open Scope string_scope.
 
@@ -46,10 +49,11 @@ Record mdesc := mkD {
 (* ------------------------------------------------------------------ encoder *)
 
 Definition qkind_code (k : qkind) : string :=
-  match k with QX => "#x" | QY => "#y" | QU => "#u" | QV => "#v" | QW => "#w" | QP => "#p" | QZ => "#z" end.
+  match k with QX => gen_qcode_x | QY => gen_qcode_y | QU => gen_qcode_u | QV => gen_qcode_v | QW => gen_qcode_w
+             | QP => gen_qcode_p | QZ => gen_qcode_z end.
 
 Definition ekind_code (k : ekind) : string :=
-  match k with ET => "#T" | EM => "#M" | EA => "#A" end.
+  match k with ET => gen_ecode_t | EM => gen_ecode_m | EA => gen_ecode_a end.
 
 Definition enc_opt {A} (f : A -> json) (o : option A) : json :=
   match o with None => JNull | Some a => f a end.
@@ -70,14 +74,14 @@ Definition enc_variant (vs : list (string * value)) : json :=
   JObj (map (fun p => (fst p, enc_value (snd p))) vs).
 
 Definition encode (m : mdesc) : json :=
-  JObj [("portable_format", JStr "0.3.0");
-        ("source", JObj [("description", JStr (d_descr m));
-                         ("flags", JObj [("is_linear", JBool (d_linear m)); ("is_flat", JBool (d_flat m));
-                                         ("is_deterministic", JBool (d_determ m))]);
-                         ("quantities", JList (map enc_quantity (d_quantities m)));
-                         ("equations", JList (map enc_equation (d_equations m)));
-                         ("context", JObj (map (fun k => (k, JNull)) (d_context m)))]);
-        ("variants", JList (map enc_variant (d_variants m)))].
+  JObj [(gen_key_format, JStr gen_format);
+        (gen_key_source, JObj [(gen_key_description, JStr (d_descr m));
+                         (gen_key_flags, JObj [(gen_key_linear, JBool (d_linear m)); (gen_key_flat, JBool (d_flat m));
+                                         (gen_key_determ, JBool (d_determ m))]);
+                         (gen_key_quantities, JList (map enc_quantity (d_quantities m)));
+                         (gen_key_equations, JList (map enc_equation (d_equations m)));
+                         (gen_key_context, JObj (map (fun k => (k, JNull)) (d_context m)))]);
+        (gen_key_variants, JList (map enc_variant (d_variants m)))].
 
 (* ------------------------------------------------------------------ decoder *)
 
@@ -97,14 +101,14 @@ Fixpoint mapM {A B} (f : A -> option B) (l : list A) : option (list B) :=
   end.
 
 Definition qkind_of_code (s : string) : option qkind :=
-  if String.eqb s "#x" then Some QX else if String.eqb s "#y" then Some QY
-  else if String.eqb s "#u" then Some QU else if String.eqb s "#v" then Some QV
-  else if String.eqb s "#w" then Some QW else if String.eqb s "#p" then Some QP
-  else if String.eqb s "#z" then Some QZ else None.
+  if String.eqb s gen_qcode_x then Some QX else if String.eqb s gen_qcode_y then Some QY
+  else if String.eqb s gen_qcode_u then Some QU else if String.eqb s gen_qcode_v then Some QV
+  else if String.eqb s gen_qcode_w then Some QW else if String.eqb s gen_qcode_p then Some QP
+  else if String.eqb s gen_qcode_z then Some QZ else None.
 
 Definition ekind_of_code (s : string) : option ekind :=
-  if String.eqb s "#T" then Some ET else if String.eqb s "#M" then Some EM
-  else if String.eqb s "#A" then Some EA else None.
+  if String.eqb s gen_ecode_t then Some ET else if String.eqb s gen_ecode_m then Some EM
+  else if String.eqb s gen_ecode_a then Some EA else None.
 
 Definition dec_obool (j : json) : option (option bool) :=
   match j with JNull => Some None | JBool b => Some (Some b) | _ => None end.
@@ -163,20 +167,20 @@ Definition bind {A B} (o : option A) (f : A -> option B) : option B :=
   match o with Some a => f a | None => None end.
 
 Definition decode (j : json) : option mdesc :=
-  bind (field "portable_format" j) (fun fmt =>
+  bind (field gen_key_format j) (fun fmt =>
   match fmt with
   | JStr f =>
-    if String.eqb f "0.3.0" then
-      bind (field "source" j) (fun src =>
-      bind (field "variants" j) (fun vars =>
-      bind (field "description" src) (fun de =>
-      bind (field "flags" src) (fun fl =>
-      bind (bind (field "is_linear" fl) dec_bool) (fun lin =>
-      bind (bind (field "is_flat" fl) dec_bool) (fun flat =>
-      bind (bind (field "is_deterministic" fl) dec_bool) (fun det =>
-      bind (bind (field "quantities" src) (dec_list dec_quantity)) (fun qs =>
-      bind (bind (field "equations" src) (dec_list dec_equation)) (fun es =>
-      bind (bind (field "context" src) dec_context) (fun ctx =>
+    if String.eqb f gen_format then
+      bind (field gen_key_source j) (fun src =>
+      bind (field gen_key_variants j) (fun vars =>
+      bind (field gen_key_description src) (fun de =>
+      bind (field gen_key_flags src) (fun fl =>
+      bind (bind (field gen_key_linear fl) dec_bool) (fun lin =>
+      bind (bind (field gen_key_flat fl) dec_bool) (fun flat =>
+      bind (bind (field gen_key_determ fl) dec_bool) (fun det =>
+      bind (bind (field gen_key_quantities src) (dec_list dec_quantity)) (fun qs =>
+      bind (bind (field gen_key_equations src) (dec_list dec_equation)) (fun es =>
+      bind (bind (field gen_key_context src) dec_context) (fun ctx =>
       bind (dec_list dec_variant vars) (fun vs =>
       match de with
       | JStr d => Some (mkD d lin flat det qs es ctx vs)
@@ -199,7 +203,10 @@ Definition qkind_eqb (a b : qkind) : bool :=
   | _, _ => false
   end.
 
-Definition all_qkinds : list qkind := [QX; QY; QU; QV; QW; QP; QZ].
+Definition qkind_of_index (i : nat) : qkind :=
+  match i with 0 => QX | 1 => QY | 2 => QU | 3 => QV | 4 => QW | 5 => QP | _ => QZ end.
+
+Definition all_qkinds : list qkind := Eval compute in (map qkind_of_index gen_qkind_order).
 
 Definition by_kind (qs : list quantity) : list quantity :=
   flat_map (fun k => filter (fun q => qkind_eqb (q_kind q) k) qs) all_qkinds.
